@@ -16,6 +16,7 @@ Decided clauses (narrow): the channels are different code that must funnel into 
   C05.f  list-valued options are decided as argparse does (integer clause folded over
          {0,1,2,3}); steps of the leaf arm after the load are not conditioned on the
          value having arrived as text
+  C05.g  the omegaconf loader's scalar short-cut covers every scalar type of the yaml loader
 Not decided: equality of results across channels for all values; loader equivalence
 across parser modes.
 """
@@ -329,6 +330,28 @@ def run(ctx: Ctx) -> int:
             fn=ad5,
         )
     ctx.floor("C05.f-leaf-steps", n_leaf, 2)
+
+    # ---------------- C05.g: the omegaconf loader returns every YAML scalar as the yaml loader does -------------
+    gol = ctx.func("_optionals:get_omegaconf_loader")
+    from .util import nested_defs
+
+    ol = nested_defs(gol).get("omegaconf_load")
+    ctx.need(ol, "get_omegaconf_loader.omegaconf_load")
+    yl = [s for s in walk_local(ol) if isinstance(s, ast.Assign) and isinstance(s.value, ast.Call) and call_leaf(s.value) == "yaml_load" and isinstance(s.targets[0], ast.Name)]
+    ctx.need(len(yl) == 1, "omegaconf_load: <v> = yaml_load(value)")
+    yv = yl[0].targets[0].id
+    inst = [c for c in calls_in(ol) if call_leaf(c) == "isinstance" and len(c.args) == 2 and isinstance(c.args[0], ast.Name) and c.args[0].id == yv and isinstance(c.args[1], ast.Tuple)]
+    types_ = {dotted(e) for c in inst for e in c.args[1].elts}
+    none_t = any(isinstance(n_, ast.Compare) and isinstance(n_.left, ast.Name) and n_.left.id == yv and isinstance(n_.ops[0], ast.Is) and isinstance(n_.comparators[0], ast.Constant) and n_.comparators[0].value is None for n_ in ast.walk(ol))
+    rets = [r for r in walk_local(ol) if isinstance(r, ast.Return) and isinstance(r.value, ast.Name) and r.value.id == yv]
+    ok = {"str", "int", "float", "bool"} <= types_ and none_t and bool(rets)
+    ctx.oblige(
+        "C05.g",
+        ok,
+        inst[0] if inst else ol,
+        "every scalar the yaml loader can produce (str, int, float, bool, None) is returned as loaded" if ok else f"the scalar short-cut of the omegaconf loader covers only {sorted(t for t in types_ if t)}: a value of a missing scalar type, given per value (argv, environment), is sent through OmegaConf.load and rejected (`Invalid loaded object type`) while the same value inside a document is accepted",
+        fn=ol,
+    )
 
     return ctx.finish(
         explanation=(
